@@ -46,8 +46,9 @@ def loadKeysCached (quirk : Bool) (fieldLoader : S → JVal → LRes) (eff : Met
         | (.ok (kw, ca), c2) => (.ok ((f, y) :: kw, ca), c2)
     | (.ok .ignored, c1) => loadKeysCached quirk fieldLoader eff ci c1 r
     | (.ok .unknown, c1) =>
-      -- a cached `ExplicitNull` means "skip this key": the slow path (with its raise) is not taken again
-      if eff.raiseOnUnknown.getD false && (c.get? k).isNone then (.error (.unknownKeys ci.name [k]), c1)
+      -- under the raise policy an unknown key is rejected whether it was resolved just now or found cached as
+      -- `ExplicitNull` (since repair: a function generated for the class under another policy may have cached it)
+      if eff.raiseOnUnknown.getD false then (.error (.unknownKeys ci.name [k]), c1)
       else
         match loadKeysCached quirk fieldLoader eff ci c1 r with
         | (.error e, c2) => (.error e, c2)
@@ -69,6 +70,17 @@ def runCalls (quirk : Bool) (fieldLoader : S → JVal → LRes) (eff : MetaCfg) 
   | c, d :: r =>
     let (o, c1) := loadCall quirk fieldLoader eff ci c d
     let (os, c2) := runCalls quirk fieldLoader eff ci c1 r
+    (o :: os, c2)
+
+/-- a history of calls on one class through functions generated under different policies: each call carries the effective
+Meta of the function it goes through (the class on its own, or nested under some main class); they all share the class's
+cache -/
+def runCallsP (fieldLoader : S → JVal → LRes) (ci : ClassInfo) :
+    Cache → List (MetaCfg × List (S × JVal)) → List LRes × Cache
+  | c, [] => ([], c)
+  | c, (eff, d) :: r =>
+    let (o, c1) := loadCall false fieldLoader eff ci c d
+    let (os, c2) := runCallsP fieldLoader ci c1 r
     (o :: os, c2)
 
 /-! ### several classes: each has its own cache -/
